@@ -27,7 +27,8 @@ META = {
              "arity >=2 or a word size >1 (size-field cases: total >= 2^29); distinct by content hash"),
     "require": {t: ["bytes_compared", "decoded_independently", "foreign_files_loaded", "foreign:rw=1", "foreign:rw=2",
                     "foreign:rw=8", "foreign:iw_wider", "narrow_total_over_255", "narrow_total_over_65535",
-                    "sizefield:total>=2^30", "sizefield:total>=2^32"] for t in ("quick", "thorough")},
+                    "sizefield:total>=2^30", "sizefield:total>=2^32", "class:numpy_scalar_coordinates",
+                    "class:array_of_2^22_row_ids"] for t in ("quick", "thorough")},
     "assumptions": ["entry order is the one thing the format leaves free: the order found in the file is accepted",
                     "with no entries the dimension byte is 0 (the saver cannot know the arity)"],
 }
@@ -47,6 +48,12 @@ def cases(ctx):
     if kind == "files":
         for i in range(ctx.shard["n"]):
             c = indx.run_case(rng) if i % 29 == 3 else (indx.tiled_case(rng) if i % 11 == 6 else indx.indx_case(rng))
+            c["kind"] = "files"
+            if "run_length" not in c and "tiled" not in c:
+                c["numpy_scalar_keys"] = bool(rng.random() < 0.12)
+            yield c
+        if ctx.shard_index == 0:
+            c = indx.big_array_case(rng)
             c["kind"] = "files"
             yield c
     elif kind == "narrow":
@@ -88,7 +95,11 @@ class DuckRowids:
 def judge(ctx, case):
     if case["kind"] == "sizefield":
         return judge_sizefield(ctx, case)
-    ent = indx.entries_dict(case)
+    ent = indx.plain_keys(indx.entries_dict(case))
+    if case.get("numpy_scalar_keys"):
+        ctx.count("class:numpy_scalar_coordinates")
+    if case.get("big_array"):
+        ctx.count("class:array_of_2^22_row_ids")
     common = int(case["common"])
     n = len(ent)
     maxc = max([c for k in ent for c in k] + [common])
@@ -137,8 +148,10 @@ def judge(ctx, case):
     iw0 = indxref.narrowest_word(maxc)
     iws = [w for w in (1, 2, 4, 8) if w >= iw0]
     rws = [w for w in (1, 2, 4, 8) if max(maxlen, maxid) < 1 << (8 * w)]
-    if len(items) > 400:
+    if len(items) > 400 or case.get("big_array"):
         iws, rws = iws[:2], rws[:2]
+    if case.get("big_array"):
+        iws, rws = iws[:1], [4]
     if case["kind"] == "narrow":
         rws = [case["rw"]]
         ctx.count("narrow_total_over_255" if case["rw"] == 1 and total > 255 else
